@@ -51,7 +51,7 @@ func runC02(o Opts) error {
 	}
 	r := NewRand(o.Seed, "C02")
 	thorough := o.Tier == "thorough"
-	rounds := 2
+	rounds := 3
 	if thorough {
 		rounds = 12
 	}
@@ -66,6 +66,17 @@ func runC02(o Opts) error {
 			if oc.Resp == "" {
 				continue
 			}
+			// operations whose result depends on an echoed argument: make sure the value path is reached
+			if oc.Name == "GetTimeProfile" || oc.Name == "GetCardByID" {
+				for try := 0; try < 20; try++ {
+					var x, y uint64
+					fmt.Sscanf(oc.Coq, oc.Name+" %d %d", &x, &y)
+					if y != 0 && !(oc.Name == "GetCardByID" && y == 0xffffffff) {
+						break
+					}
+					oc = genOp(r, w, id, false)
+				}
+			}
 			fields := replyFields(oc.Resp)
 			// echo / sentinel fields: reply with the requested card / profile, zero, 0xffffffff, another value
 			set := map[string]uint64{}
@@ -73,14 +84,14 @@ func runC02(o Opts) error {
 			switch oc.Name {
 			case "GetCardByID":
 				fmt.Sscanf(oc.Coq, "GetCardByID %d %d", &a, &b)
-				set["CardNumber"] = []uint64{b, b, b, 0, 0xffffffff, b + 1}[r.Intn(6)]
+				set["CardNumber"] = []uint64{b, b, b, 0, 0xffffffff, b + 1}[[]int{0, 3, 4, 5, 1, 2}[round%6]]
 			case "GetCardByIndex":
 				if r.Intn(3) == 0 {
 					set["CardNumber"] = []uint64{0, 0xffffffff, 1}[r.Intn(3)]
 				}
 			case "GetTimeProfile":
 				fmt.Sscanf(oc.Coq, "GetTimeProfile %d %d", &a, &b)
-				set["ProfileID"] = []uint64{b, b, b, 0, (b + 1) % 256}[r.Intn(5)]
+				set["ProfileID"] = []uint64{b, b, b, b, 0, (b + 1) % 256}[[]int{0, 4, 5, 1, 2, 3}[round%6]]
 			case "GetEvent":
 				if r.Intn(3) == 0 {
 					set["Type"] = 0xff
